@@ -160,6 +160,18 @@ def check_module_nodes(chk, text, ir, errs, batch, stats, origin, modules=None):
         stats["nodes"] = stats.get("nodes", 0) + 1
         if t.startswith("i:"):
             batch.ask("INV " + t, "true", dict(ctx, annotation=t), "inv")
+            # the other two conjuncts of the inductive invariant `InvOk` (Spec/BoundsInv.lean),
+            # evaluated directly: canonical remainder; "constant infinity" only counted (F8)
+            _, _mn, _mx, _md, _mv = t.split(":")
+            if _md != "inf":
+                canon = _mv not in ("inf", "-inf") and 0 <= int(_mv) < int(_md)
+                if not canon:
+                    chk.violation("correspondence", dict(ctx, annotation=t, observed="modular_value %s" % _mv,
+                                  expected="0 <= modular_value < modulus (CanonMv, proved by "
+                                           "C05_inv_preserved for every annotation the model computes)",
+                                  theorem_or_correspondence="C05_inv_preserved"), found_input=False)
+            elif _mv in ("inf", "-inf"):
+                stats["constant_infinity"] = stats.get("constant_infinity", 0) + 1
         if w == "function":
             name = FN.get(expr.function.function.name)
             stats["op:%s" % name] = stats.get("op:%s" % name, 0) + 1
